@@ -19,6 +19,8 @@ func c08Prog() *Prog {
 	p.Node("start", "start")
 	t := p.Node("task", "T")
 	t.Results = []string{"r1", "r2"}
+	// a task definition with its own retry count: the count given with the error handler is the one that applies
+	t.Ext = `<olive:taskDefinition type="service" retries="2"/>`
 	x := p.Node("xor", "X")
 	p.Node("task", "A")
 	p.Node("task", "B")
